@@ -57,16 +57,17 @@ impl<'a> Parsed<'a> {
     }
 }
 
-/// digit+ with value <= 255; returns (value, rest)
-fn num(s: &[u8]) -> Option<(u8, &[u8])> {
+/// digit+ with value <= 255; returns (value, rest). With `any_range` the value is not limited
+/// (reported modulo 256): used only to recognise "the sole problem is a number out of range".
+fn num_r(s: &[u8], any_range: bool) -> Option<(u8, &[u8])> {
     let nd = s.iter().take_while(|c| c.is_ascii_digit()).count();
     if nd == 0 {
         return None;
     }
     let mut v: u32 = 0;
     for &c in &s[..nd] {
-        v = v * 10 + (c - b'0') as u32;
-        if v > 255 {
+        v = v.wrapping_mul(10).wrapping_add((c - b'0') as u32);
+        if v > 255 && !any_range {
             return None;
         }
     }
@@ -99,7 +100,18 @@ pub fn recognise_wide_checksum(line: &[u8]) -> Option<(Parsed<'_>, u32)> {
     recognise_with(line, false)
 }
 
+/// Does the line have the sentence shape if numbers of ANY magnitude are allowed in the count,
+/// number, sequence id and fill fields (and it does not have it otherwise)?
+pub fn only_numeric_range_violated(line: &[u8]) -> bool {
+    recognise_with(line, true).is_none() && recognise_full(line, true, true).is_some()
+}
+
 fn recognise_with(line: &[u8], limit_ff: bool) -> Option<(Parsed<'_>, u32)> {
+    recognise_full(line, limit_ff, false)
+}
+
+fn recognise_full(line: &[u8], limit_ff: bool, any_range: bool) -> Option<(Parsed<'_>, u32)> {
+    let num = |s| num_r(s, any_range);
     let mut s = line;
     // optional tag block
     if s.first() == Some(&b'\\') {
@@ -141,7 +153,7 @@ fn recognise_with(line: &[u8], limit_ff: bool) -> Option<(Parsed<'_>, u32)> {
         return None;
     }
     let (fill, r) = num(s)?;
-    if fill >= 6 {
+    if fill >= 6 && !any_range {
         return None;
     }
     s = r;
